@@ -252,65 +252,35 @@ def run(chk):
         this = sym.sym("this")
         base_t = sym.arrow(this, "base")
         from sa import bounds
-        # each table statement A[e] = &B[f] (index computed or carried by walking pointers, loops fused or not): f == stride * e
-        # identically, and the indices e visit [0, extent of A) exactly once for every (n, t) -- enumerated for n, t in 1..3
+        # each table statement A[e] = &B[f] (index computed or carried by walking pointers, loops fused or not, filled directly or
+        # through a local stored into the field afterwards): f == stride * e identically (sa/tables.py), and the indices e visit
+        # [0, extent of A) exactly once for every (n, t) -- enumerated for n, t in 1..3
         import itertools
+        from sa import tables, concrete
         from sa.secretflow import eval_term
-        p2f = {p["val"]: p["lv"] for p in cps if p["kind"] == "store" and not p["loops"] and p["op"] == "=" and p["lv"][0] == "fld"
-               and p["val"][0] == "sym"}
-        bst0 = [p for p in cps if p["kind"] == "store" and p["lv"] == base_t and not p["loops"]]
-        base_v = bst0[0]["val"] if len(bst0) == 1 else base_t
+        nps, fvals, norm = tables.normalised(v, ctor[0], this)
+        base_v = fvals.get(base_t, base_t)
         want = {"ks1_raw": ("ks0_raw", base_v, sym.mul(cn["n"], cn["t"])), "ks": ("ks1_raw", cn["t"], cn["n"])}
         for A_, (B_, stride, extent) in want.items():
-            sts = [p for p in cps if p["kind"] == "store" and p["loops"] and p["lv"][0] == "idx" and p["lv"][1] == sym.arrow(this, A_)]
-            if not sts:
-                problems.append("no statement fills the table %s" % A_)
+            B, c, sts = tables.table(nps, this, A_)
+            if B is None:
+                problems.append(c)
                 continue
-            seen = {}
-            for p in sts:
-                e_ = sym.trip_counts_nonneg(p["lv"][2])
-                val = sym.trip_counts_nonneg(sym.subst(p["val"], p2f))
-                bs, off = bounds.split_base_offset(val)
-                if bs != sym.arrow(this, B_):
-                    problems.append("%s[%s] points into %s, expected into %s" % (A_, sym.show(e_), sym.show(bs) if bs else sym.show(val)[:40], B_))
-                    continue
-                # fields read back inside the constructor are the values it stored into them
-                f2v = {q["lv"]: q["val"] for q in cps if q["kind"] == "store" and not q["loops"] and not q["guards"] and q["op"] == "="
-                       and q["lv"][0] == "fld" and q["lv"][1] == sym.idx(this, ZERO) and q["val"][0] in ("sym", "op", "poly", "int")}
-                norm_ = lambda t_: sym.subst(sym.subst(t_, f2v), f2v)
-                st_v = norm_(stride)
-                e_ = norm_(e_)
-                if sym.sub(norm_(off), sym.mul(st_v, e_)) != ZERO:
-                    problems.append("%s[%s] = %s + %s, expected %s + %s*(%s)" % (A_, sym.show(e_), B_, sym.show(off), B_, sym.show(stride), sym.show(e_)))
-                    continue
-                for nv, tv in itertools.product((1, 2, 3), repeat=2):
-                    env0 = {cn["n"]: nv, cn["t"]: tv}
-
-                    def go(k, env):
-                        if k == len(p["loops"]):
-                            x = eval_term(e_, env)
-                            if x is None:
-                                chk.broken("LweKeySwitchKey constructor: table index %s not evaluable" % sym.show(e_))
-                            seen.setdefault((nv, tv), []).append(x)
-                            return
-                        l_ = p["loops"][k]
-                        lo_, hi_, st_ = eval_term(sym.trip_counts_nonneg(l_["lo"]), env), eval_term(sym.trip_counts_nonneg(l_["hi"]), env), sym.const_value(l_["step"])
-                        if lo_ is None or hi_ is None or not st_ or st_ <= 0 or l_["cmp"] not in ("<", "<="):
-                            chk.broken("LweKeySwitchKey constructor: loop at line %s not evaluable" % l_.get("l"))
-                        x = lo_
-                        while (x < hi_) if l_["cmp"] == "<" else (x <= hi_):
-                            e2 = dict(env)
-                            e2[l_["var"]] = x
-                            go(k + 1, e2)
-                            x += st_
-                    go(0, env0)
-            for (nv, tv), xs in sorted(seen.items()):
-                ext_v = eval_term(extent, {cn["n"]: nv, cn["t"]: tv})
-                if sorted(xs) != list(range(ext_v)):
-                    problems.append("with n = %d, t = %d the statements fill entries %s of %s, which has %d entries" % (nv, tv, sorted(xs)[:8], A_, ext_v))
+            if B != B_ or norm(c) != norm(stride):
+                problems.append("%s[e] = %s + (%s)*e, expected %s + (%s)*e" % (A_, B, sym.show(c), B_, sym.show(norm(stride))))
+                continue
+            for nv, tv in itertools.product((1, 2, 3), repeat=2):
+                env0 = {cn["n"]: nv, cn["t"]: tv, cn["basebit"]: 1}
+                try:
+                    xs = tables.visited(sts, env0)
+                except concrete.NotEvaluable as e:
+                    chk.broken("LweKeySwitchKey constructor: %s" % e)
+                ext_v = eval_term(norm(extent), env0)
+                if xs != list(range(ext_v)):
+                    problems.append("with n = %d, t = %d the statements fill entries %s of %s, which has %d entries" % (nv, tv, xs[:8], A_, ext_v))
                     break
         basest = [p for p in cps if p["kind"] == "store" and p["lv"] == base_t]
-        if len(basest) != 1 or bits.pow2_exp(basest[0]["val"]) != cn["basebit"]:
+        if len(basest) != 1 or bits.pow2_exp(fvals.get(base_t, basest[0]["val"])) != cn["basebit"]:
             problems.append("base is not 1 << basebit")
         ini = v.fn("init_LweKeySwitchKey")
         ips, _ = summ.pieces(v, ini, hooks=NOINLINE)
